@@ -114,7 +114,7 @@ func runC15(c *Ctx) {
 	ruleErrUse(c, "R-ERRUSE", mods, c15Scope, c15AllowedErrUse)
 
 	// (3) R-ERRSWALLOW
-	c.Rule("R-ERRSWALLOW", "no nil-error return on the non-nil edge of an error test unless an enclosing/earlier condition classifies that error", 20)
+	c.Rule("R-ERRSWALLOW", "no nil-error return on the non-nil edge of an error test unless an enclosing/earlier condition classifies that error", 15)
 	ruleErrSwallow(c, "R-ERRSWALLOW", mods, c15Scope, c15SwallowAllowed)
 
 	// (4) R-CLOSE
